@@ -1,7 +1,7 @@
 #!/bin/bash
 # usage: soak.sh <tier> <seed>...   runs every check under each seed; prints one line per run; non-zero if any run is not silent
 tier=$1; shift
-cd /verif
+cd "$(dirname "$0")/.."
 rc=0
 for seed in "$@"; do
   for id in $(python3 -c "import json;print(' '.join(c['property_id'] for c in json.load(open('MANIFEST.json'))['checks']))"); do
